@@ -112,6 +112,26 @@ pub fn walk(ctx: &mut Ctx, g: &Guarded, h: &Multiboot2Header) {
             Err(()) => "PANIC".to_string(),
         },
     );
+    ctx.ln(
+        "tags_last",
+        match guard(|| h.iter().last()) {
+            Ok(Some(t)) => format!("VAL {}", view(g, t)),
+            Ok(None) => "VAL none".to_string(),
+            Err(()) => "PANIC".to_string(),
+        },
+    );
+    ctx.ln(
+        "tags_last_exhausted",
+        match guard(|| {
+            let mut it = h.iter();
+            while it.next().is_some() {}
+            (it.clone().last().is_none(), it.last().is_none())
+        }) {
+            Ok((true, true)) => "VAL none".to_string(),
+            Ok(_) => "VAL some".to_string(),
+            Err(()) => "PANIC".to_string(),
+        },
+    );
     let r = guard(|| {
         let mut it = h.iter();
         let first = it.next().is_some();
